@@ -162,7 +162,8 @@ class Verifier:
             pass
         else:
             run.oblige("no_unexpected.%s" % exc, z3.BoolVal(False), site="exit:" + exc, kind="raises")
-        if c.raise_unchanged:
+        unchanged = c.raise_unchanged if isinstance(c.raise_unchanged, bool) else (exc in c.raise_unchanged)
+        if unchanged:
             cc = Ctx(dict(self.entry_args), self.pre_heap, run.heap, run=run, alloc0=self.alloc_entry)
             self.frame_obligations(run, cc, {})
 
